@@ -39,6 +39,60 @@ theorem poly4_ge (c : ℝ × ℝ × ℝ × ℝ × ℝ) (Y : ℝ) (hY : |Y| ≤ 1
   rw [pow_one] at b1
   linarith
 
+theorem poly4_le (c : ℝ × ℝ × ℝ × ℝ × ℝ) (Y : ℝ) (hY : |Y| ≤ 1) :
+    Spec.SunEvents.poly4 c Y ≤ c.1 + |c.2.1| + |c.2.2.1| + |c.2.2.2.1| + |c.2.2.2.2| := by
+  unfold Spec.SunEvents.poly4
+  have b : ∀ (a : ℝ) (n : ℕ), a * Y ^ n ≤ |a| := by
+    intro a n
+    have h1 : |a * Y ^ n| ≤ |a| := by
+      rw [abs_mul, abs_pow]
+      calc |a| * |Y| ^ n ≤ |a| * 1 := mul_le_mul_of_nonneg_left (pow_le_one₀ (abs_nonneg Y) hY) (abs_nonneg a)
+        _ = |a| := mul_one _
+    exact le_of_abs_le h1
+  have b1 := b c.2.1 1
+  have b2 := b c.2.2.1 2
+  have b3 := b c.2.2.2.1 3
+  have b4 := b c.2.2.2.2 4
+  rw [pow_one] at b1
+  linarith
+
+/-- difference of two rows of a table, as a row -/
+def rowSub (a b : ℝ × ℝ × ℝ × ℝ × ℝ) : ℝ × ℝ × ℝ × ℝ × ℝ :=
+  (a.1 - b.1, a.2.1 - b.2.1, a.2.2.1 - b.2.2.1, a.2.2.2.1 - b.2.2.2.1, a.2.2.2.2 - b.2.2.2.2)
+
+theorem poly4_sub (a b : ℝ × ℝ × ℝ × ℝ × ℝ) (Y : ℝ) :
+    Spec.SunEvents.poly4 a Y - Spec.SunEvents.poly4 b Y = Spec.SunEvents.poly4 (rowSub a b) Y := by
+  unfold Spec.SunEvents.poly4 rowSub; ring
+
+/-- One year further (`Y + 1/1000`): the polynomial grows by `c1/1000` up to the small higher terms. -/
+theorem poly4_step (c : ℝ × ℝ × ℝ × ℝ × ℝ) (Y : ℝ) (hY : |Y| ≤ 1) :
+    |Spec.SunEvents.poly4 c (Y + 1 / 1000) - Spec.SunEvents.poly4 c Y - c.2.1 / 1000| ≤
+      (2.001 * |c.2.2.1| + 3.004 * |c.2.2.2.1| + 4.007 * |c.2.2.2.2|) / 1000 := by
+  have key : Spec.SunEvents.poly4 c (Y + 1 / 1000) - Spec.SunEvents.poly4 c Y - c.2.1 / 1000 =
+      (c.2.2.1 * (2 * Y + 1 / 1000) + c.2.2.2.1 * (3 * Y ^ 2 + 3 * Y / 1000 + 1 / 1000000) +
+        c.2.2.2.2 * (4 * Y ^ 3 + 6 * Y ^ 2 / 1000 + 4 * Y / 1000000 + 1 / 1000000000)) / 1000 := by
+    unfold Spec.SunEvents.poly4; ring
+  rw [key, abs_div, abs_of_pos (by norm_num : (0:ℝ) < 1000)]
+  apply div_le_div_of_nonneg_right _ (by norm_num)
+  have y1 := abs_le.mp hY
+  have y2 : |Y ^ 2| ≤ 1 := by rw [abs_pow]; exact pow_le_one₀ (abs_nonneg Y) hY
+  have y3 : |Y ^ 3| ≤ 1 := by rw [abs_pow]; exact pow_le_one₀ (abs_nonneg Y) hY
+  have y2' := abs_le.mp y2
+  have y3' := abs_le.mp y3
+  have b2 : |2 * Y + 1 / 1000| ≤ 2.001 := by rw [abs_le]; constructor <;> norm_num <;> linarith [y1.1, y1.2]
+  have b3 : |3 * Y ^ 2 + 3 * Y / 1000 + 1 / 1000000| ≤ 3.004 := by
+    rw [abs_le]; constructor <;> norm_num <;> linarith [y1.1, y1.2, y2'.1, y2'.2]
+  have b4 : |4 * Y ^ 3 + 6 * Y ^ 2 / 1000 + 4 * Y / 1000000 + 1 / 1000000000| ≤ 4.007 := by
+    rw [abs_le]; constructor <;> norm_num <;> linarith [y1.1, y1.2, y2'.1, y2'.2, y3'.1, y3'.2]
+  have t : ∀ (a b B : ℝ), |b| ≤ B → |a * b| ≤ B * |a| := by
+    intro a b B hb; rw [abs_mul, mul_comm]; exact mul_le_mul_of_nonneg_right hb (abs_nonneg a)
+  calc |c.2.2.1 * (2 * Y + 1 / 1000) + c.2.2.2.1 * (3 * Y ^ 2 + 3 * Y / 1000 + 1 / 1000000) +
+        c.2.2.2.2 * (4 * Y ^ 3 + 6 * Y ^ 2 / 1000 + 4 * Y / 1000000 + 1 / 1000000000)|
+      ≤ |c.2.2.1 * (2 * Y + 1 / 1000)| + |c.2.2.2.1 * (3 * Y ^ 2 + 3 * Y / 1000 + 1 / 1000000)| +
+        |c.2.2.2.2 * (4 * Y ^ 3 + 6 * Y ^ 2 / 1000 + 4 * Y / 1000000 + 1 / 1000000000)| := abs_add_three _ _ _
+    _ ≤ 2.001 * |c.2.2.1| + 3.004 * |c.2.2.2.1| + 4.007 * |c.2.2.2.2| := by
+        linarith [t c.2.2.1 _ _ b2, t c.2.2.2.1 _ _ b3, t c.2.2.2.2 _ _ b4]
+
 /-- Every approximate instant is far on the positive side of JD 0. -/
 theorem season_jde0_ge {year k : Int} {j : ℝ} (hk : 0 ≤ k ∧ k ≤ 3) (h : season_jde0 year k = .ok j) :
     1350000 ≤ j := by
